@@ -485,7 +485,13 @@ func c07Gzip(b []byte) []byte {
 }
 
 func c07StartFront(serverYAML, pipelineYAML string) *c07Front {
-	pspec, err := supervisor.NewSpec(pipelineYAML)
+	return c07StartFrontSuper(serverYAML, pipelineYAML, nil)
+}
+
+// c07StartFrontSuper: super (may be nil) is the supervisor the pipeline's filters see
+// (system controllers such as the ServiceRegistry).
+func c07StartFrontSuper(serverYAML, pipelineYAML string, super *supervisor.Supervisor) *c07Front {
+	pspec, err := super.NewSpec(pipelineYAML)
 	if err != nil {
 		panic(fmt.Sprintf("pipeline spec: %v\n%s", err, pipelineYAML))
 	}
